@@ -69,6 +69,20 @@ def oracle_fails(pid, rec):
 NOT_APPLICABLE = {}
 
 PROPS = {
+    "C16": {
+        "manifest_text": "Lean 4 theorems for all strings (28, incl. escape output in (Safe|Entity)*, unescape∘escape = id, escape_once idempotent / keeps existing entities / fixed on escape output, url_encode alphabet and shape, UTF-8 encode/decode round trip, url_decode∘url_encode = ok id, invalid decoded UTF-8 is an error, strip_html output has no complete <...> tag, is a subsequence of its input and leaves tag-free text unchanged, no filter can panic) about hand-written models of html.rs and url.rs (+ percent-encoding's table and from_utf8's validation), tied to /repo by exhaustive differential runs over the property's three alphabets and by evaluating the executable spec predicates on the implementation's own outputs.",
+        "manifest_note": "Trusted: Lean kernel + allowed axioms (three 256-entry byte tables closed by decide +kernel), theorem statements, hand-written models (validated differentially). The regex engine (leftmost-first, lazy star, Unicode simple case folding), percent-encoding and core::str::from_utf8 are modelled from their sources and compared on every run, not verified.",
+        "technique": "Lean 4 proof (algebraic laws / language membership by induction) + exhaustive differential correspondence",
+        "design_ref": "DESIGN.md section 7 C16",
+        "rule": "cases = every string up to length 5 (quick 4) over {< > & \" ' ; # a l t m p space e-acute} through escape, escape_once and escape_once twice; every string up to length 4 over {% + 2 F f space / e-acute emoji} through url_encode, url_decode(url_encode) and url_decode; every string up to length 6 (quick 5) over {< > ! - / s c r i p t a} through strip_html; token-level enumerations spelling all five entities and near-entities / percent escapes incl. overlong, surrogate and >U+10FFFF sequences / script, style, comment openers and closers in mixed case and with U+017F (up to 4 tokens, quick 3); the 'existing entity stays' law for every context pair up to length 2 (quick 1) x 5 entities; url_decode on every byte string of length <= 3 as %XX (quick: all of length <= 2, 20 lead bytes for length 3) and boundary 4-byte sequences, compared with the proved UTF-8 validator; the (?i) fold set of every letter position of the script/style regexes over all scalar values (quick: up to U+2FFF); random longer strings from all pools; non-string inputs and extra arguments; non-trivial = distinct inputs",
+        "explanation": "Lean theorems C16_* about the models of html.rs (escape loop with its skip counter, nr_escaped, the four regex passes as leftmost-shortest scanners) and url.rs (percent-encoding set, PercentDecode, from_utf8 validation) + differential run of those models against the real filters, with the executable spec predicates of Spec/C16.lean (language membership, unescape, idempotence, alphabet, round trip, error iff invalid UTF-8, no complete tag) evaluated on the implementation's own outputs",
+        "exhaustive": True,
+        "assumptions": [
+            "the regex crate implements leftmost-first matching with a lazy star and Unicode simple case folding; both are compared with the model on every run (exhaustive tag alphabet, fold scan over all scalar values), not assumed silently",
+            "Strings cross the protocol as UTF-8; Rust `String` values are valid UTF-8 by type, so `List Char` is a faithful carrier",
+        ],
+        "trusted": ["percent-encoding 2.3.1 and core::str::from_utf8 are modelled from their sources (AsciiSet table, after_percent_sign, run_utf8_validation) and checked differentially, not verified"],
+    },
     "C07": {
         "rule": "paths of length 1..2 exhaustively (quick; 3 in thorough) and guided random walks of length 3..5 over nested data (arrays of length 0..5 inside objects inside arrays; own `size`/`first`/`0` keys; non-ASCII strings), every step drawn from integer literals -7..6, i64::MIN/MAX, key literals incl. first/last/size and integer-like strings, variables holding indices/keys (incl. undefined, array-valued, boolean) and nested paths; literals: integers at the 64-bit boundaries, one past them, 19..24 digit numbers, random 64-bit sweep, explicit `+` and leading zeros, decimals with 1..6 fraction digits, strings in both quote styles over an alphabet with non-ASCII/combining/emoji/markup characters, keywords; non-trivial = distinct case with a non-empty result",
         "explanation": "Lean theorems C07_* (index law for all n and i; first/last/size; own key wins; stepwise resolution; a missing step is an error and never the find panic; output tag over found/missing path; decimal round-trip of every i64 through the digit printer and parse::<i64> model; out-of-range literals rejected; string literal content preserved; keywords) + differential run against the real crate",
